@@ -902,6 +902,9 @@ def run(ctx, res):
         raise AnalysisBroken("no store to acquisition_dimensions.size/data found")
     res.require_min("O-SHALLOW", 5)
     res.require_min("O-FIELDCOV", 14)
+    from ..freelive import rule_free_live
+    res.guard(rule_free_live, prog, res, "device/props/storage.c")
+    res.require_min("O-FREE-LIVE", 3)
     res.require_min("O-FREE-NULL", 3)
     res.require_min("R-COPY-STRING", 5)
     res.require_min("R-STRBUF", 1)
